@@ -35,7 +35,7 @@ LEVEL_NOTE = ("process death is os._exit(137) inside the seam wrapper of a forke
               "differ when the formatter failed)")
 RULE = ("one run = one workload swept over its fault space; evaluations counted in coverage.fault_sessions; distinct = (seam kind, phase, action, position of "
         "the file in the change set) tuples that fired; non-trivial = a fault that fired inside session-finish of a session with a non-empty change set")
-RULE += " Dimensions added while testing against seeded changes: formatter faults: killed by a signal after a parsable prefix, exit 1 after a parsable prefix, answer in a legacy 8-bit code page (fair: only where the bytes are not UTF-8), black returning broken text; I3 for every failure of the format-command; hash-length 64 / 8 in the swept workloads; formatter failure messages with markup-like brackets."
+RULE += " Dimensions added while testing against seeded changes: formatter faults: killed by a signal after a parsable prefix, exit 1 after a parsable prefix, answer in a legacy 8-bit code page (fair: only where the bytes are not UTF-8), black returning broken text; I3 for every failure of the format-command; hash-length 64 / 8 in the swept workloads; formatter failure messages with markup-like brackets; read errors of the unused-externals scan always among the sampled fault points."
 ASSUMPTIONS = ["faults are injected one per session (single-fault model), then the restart is fault-free",
                "I1 is judged per test file: previous bytes, or parses and is AST-equal to the fault-free twin's content"]
 REAL_VS_STUB = {
